@@ -37,7 +37,7 @@ RULE = ("genomes of 1..4 chromosomes (sizes 0..6; names where one is a prefix of
         "chromosome's values or refuse (op xgenome). Non-trivial = "
         ">= 2 included chromosomes and some entry touches a chromosome end or position 0")
 EXHAUSTIVE = {"quick": False, "thorough": False}
-MODEL_OPS = {"lookup", "l2g", "g2l", "pileup", "mask", "merge", "clip", "extend", "windows", "sort", "extract", "location"} | c10_extra.MODEL_OPS
+MODEL_OPS = {"seq", "lookup", "l2g", "g2l", "pileup", "mask", "merge", "clip", "extend", "windows", "sort", "extract", "location"} | c10_extra.MODEL_OPS
 PARALLEL = 16
 ASSUMPTIONS = [
     "single-contig operations (arithmetics/intervals.py get_pileup, get_boolean_mask, merge_intervals, clip, extend_to_size) are "
@@ -320,6 +320,8 @@ def _rank(ign):
 def model_request(c):
     d = dict(c)
     d["ign"] = _ign(c)
+    if c["op"] == "seq":
+        d["codes"] = [[ord(ch) for ch in q.upper()] for q in c["seqs"]]
     if c["op"] == "lookup":
         ign = _ign(c)
         keys = [n for n, g in zip(c["names"], ign) if not g] + [n for n, g in zip(c["names"], ign) if g]
@@ -789,6 +791,8 @@ def _agree(c, got, exp):
 def agree_model(c, got, m):
     if isinstance(got, dict) and got.get("err") == "raised":
         return isinstance(m, dict) and m.get("err") == "raised"
+    if c["op"] == "seq" and isinstance(m, dict) and "rows" in m and isinstance(got, dict) and "rows" in got:
+        return [[ord(ch) for ch in r] for r in got["rows"]] == m["rows"]
     if c["op"] == "gjaccard" and isinstance(m, dict) and "pair" in m:
         # the Lean model gives (intersection, union) counts; the float is formed here, once, from exact small integers
         jf = lambda iu: float(iu[0] / iu[1]).hex() if iu[1] else None
